@@ -21,7 +21,8 @@ Close Scope Z_scope.
 (* ---------- results ---------- *)
 Inductive errk := ELoad | EUnloaded | ENotIdle | EClose.
 Inductive res :=
-| ROk (h : nat)        (* answered by BinaryReader handle h, open at that moment *)
+| ROk (h : nat) (b : bool)  (* answered by BinaryReader handle h, open at that moment;
+                              b: the answer is BACKED BY h's mmap-ed memory (not copied) *)
 | RErr (e : errk)
 | RNil                 (* unload returned nil *)
 | RBool (b : bool)     (* isIdleSince *)
@@ -64,7 +65,8 @@ Inductive pc :=
 | S_RLock (cont : bool) (ts : Z)
 | S_ReadLoaded (cont : bool) (ts : Z)
 | S_RUnlock (cont : bool) (ts : Z) (b : bool)
-| Done (r : res).
+| Done (r : res)
+| Dangling (h : nat).   (* the caller reads an answer backed by the memory of a closed (unmapped) handle *)
 
 Record shared := mkS {
   readers : nat; writer : bool;
@@ -77,8 +79,9 @@ Record shared := mkS {
 }.
 
 (* outcomes not determined by the model: which operation an idle thread
-   starts, whether NewBinaryReader / Close succeed, the clock *)
-Record choice := mkC { c_op : op; c_ok : bool; c_now : Z }.
+   starts, whether NewBinaryReader / Close succeed, the clock, whether the
+   called method is one whose BinaryReader answer points into the mmap *)
+Record choice := mkC { c_op : op; c_ok : bool; c_now : Z; c_bw : bool }.
 
 Definition is_closed (h : nat) (cl : list nat) : bool := existsb (Nat.eqb h) cl.
 
@@ -92,11 +95,20 @@ Definition start (o : op) : pc :=
 
 Definition is_some {A} (o : option A) : bool := match o with Some _ => true | None => false end.
 
-Definition tstep (c : choice) (s : shared) (p : pc) : option (shared * pc) :=
+(* [bp]: the wrapper may hand memory-backed answers to its caller, i.e. some
+   delegating method returns the BinaryReader's zero-copy strings without
+   copying them while the read lock is held. Computed from the source ([bp_src]). *)
+Definition tstep (bp : bool) (c : choice) (s : shared) (p : pc) : option (shared * pc) :=
   let '(mkS n w r e u nh cl lo lf un uf) := s in
   match p with
   | Idle => Some (s, start (c_op c))
-  | Done _ => Some (s, Idle)
+  | Done x =>
+      (* the call has returned; the caller now reads the answer *)
+      Some (s, match x with
+               | ROk h true => if is_closed h cl then Dangling h else Idle
+               | _ => Idle
+               end)
+  | Dangling _ => None
   (* ---- lookup ---- *)
   | L_RLock => if w then None else Some (mkS (S n) w r e u nh cl lo lf un uf, L_Check1)
   | L_Check1 =>
@@ -125,7 +137,7 @@ Definition tstep (c : choice) (s : shared) (p : pc) : option (shared * pc) :=
       | Some h => Some (s, L_UseCall h)
       | None => Some (s, L_RUnlockEnd RPanic)
       end
-  | L_UseCall h => Some (s, L_RUnlockEnd (if is_closed h cl then RUAC h else ROk h))
+  | L_UseCall h => Some (s, L_RUnlockEnd (if is_closed h cl then RUAC h else ROk h (bp && c_bw c)))
   | L_RUnlockEnd x => Some (mkS (pred n) w r e u nh cl lo lf un uf, Done x)
   (* ---- unloadIfIdleSince ---- *)
   | U_Lock ts => if w || negb (n =? 0) then None else Some (mkS n true r e u nh cl lo lf un uf, U_CheckNil ts)
@@ -153,21 +165,21 @@ Definition tstep (c : choice) (s : shared) (p : pc) : option (shared * pc) :=
 (* ---------- the interleaving semantics ---------- *)
 Definition config := (shared * list pc)%type.
 
-Inductive step : config -> config -> Prop :=
+Inductive step (bp : bool) : config -> config -> Prop :=
 | step_thread : forall c s s' l p p' r,
-    tstep c s p = Some (s', p') ->
-    step (s, l ++ p :: r) (s', l ++ p' :: r).
+    tstep bp c s p = Some (s', p') ->
+    step bp (s, l ++ p :: r) (s', l ++ p' :: r).
 
-Inductive steps : config -> config -> Prop :=
-| steps_refl : forall x, steps x x
-| steps_step : forall x y z, steps x y -> step y z -> steps x z.
+Inductive steps (bp : bool) : config -> config -> Prop :=
+| steps_refl : forall x, steps bp x x
+| steps_step : forall x y z, steps bp x y -> step bp y z -> steps bp x z.
 
 Definition init_shared (u0 : Z) : shared := mkS 0 false None false u0 0 [] 0 0 0 0.
 
 (* every configuration reachable by n threads, each running any sequence of
    operations, under any interleaving *)
-Definition reachable (s : shared) (ts : list pc) : Prop :=
-  exists n u0, steps (init_shared u0, repeat Idle n) (s, ts).
+Definition reachable (bp : bool) (s : shared) (ts : list pc) : Prop :=
+  exists n u0, steps bp (init_shared u0, repeat Idle n) (s, ts).
 
 (* which program counters hold which lock *)
 Definition holdsR (p : pc) : bool :=
@@ -183,21 +195,43 @@ Definition holdsW (p : pc) : bool :=
   end.
 
 (* ---------- sequential execution of one operation (used by the correspondence) ---------- *)
-Fixpoint run (fuel : nat) (c : choice) (s : shared) (p : pc) : option (shared * res) :=
+Fixpoint run (bp : bool) (fuel : nat) (c : choice) (s : shared) (p : pc) : option (shared * res) :=
   match fuel with
   | O => None
   | S f =>
       match p with
       | Done x => Some (s, x)
-      | _ => match tstep c s p with
-             | Some (s', p') => run f c s' p'
+      | _ => match tstep bp c s p with
+             | Some (s', p') => run bp f c s' p'
              | None => None
              end
       end
   end.
 
-Definition run_op (o : op) (ok : bool) (now : Z) (s : shared) : option (shared * res) :=
-  run 24 (mkC o ok now) s (start o).
+Definition run_op (bp : bool) (o : op) (ok : bool) (now : Z) (s : shared) : option (shared * res) :=
+  run bp 24 (mkC o ok now true) s (start o).
+
+(* ---------- executing a given schedule (for examples and witnesses) ---------- *)
+Fixpoint upd (i : nat) (p : pc) (l : list pc) : list pc :=
+  match l, i with
+  | [], _ => []
+  | _ :: r, O => p :: r
+  | a :: r, S j => a :: upd j p r
+  end.
+
+(* schedule = list of (thread index, outcome oracle) *)
+Fixpoint exec (bp : bool) (sched : list (nat * choice)) (s : shared) (ts : list pc) : option config :=
+  match sched with
+  | [] => Some (s, ts)
+  | (i, c) :: rest =>
+      match nth_error ts i with
+      | Some p => match tstep bp c s p with
+                  | Some (s', p') => exec bp rest s' (upd i p' ts)
+                  | None => None
+                  end
+      | None => None
+      end
+  end.
 
 (* ---------- tie T: the source skeletons the programs above implement ---------- *)
 Definition ev_eqb (a b : string * string) : bool :=
@@ -248,6 +282,16 @@ Definition exp_method : list (string * string) :=
    ("call", "r.usedAt.Store");                                                   (* L_Touch *)
    ("call", "r.reader.METHOD"); ("return", "r.reader.METHOD(...)")].             (* L_UseRead / L_UseCall *)
 
+(* the same with the answer copied before the deferred RUnlock (LabelValues after the fix) *)
+Definition exp_method_clone : list (string * string) :=
+  [("call", "r.readerMx.RLock"); ("defer", "r.readerMx.RUnlock");
+   ("call", "r.load"); ("if", "err != nil"); ("return", "ZERO, err"); ("endif", "");
+   ("call", "r.usedAt.Store");
+   ("call", "r.reader.METHOD"); ("define", "values, err := r.reader.METHOD(name)");
+   ("if", "err != nil"); ("return", "ZERO, err"); ("endif", "");
+   ("for", "range values"); ("call", "strings.Clone"); ("assign", "values[i] = strings.Clone(values[i])"); ("endfor", "");
+   ("return", "values, nil")].
+
 Definition exp_method_names : list string :=
   ["IndexVersion"; "PostingsOffsets"; "PostingsOffset"; "LookupSymbol"; "LabelValues"; "LabelNames"].
 
@@ -267,34 +311,49 @@ Close Scope string_scope.
    every method of *LazyBinaryReader other than load / unloadIfIdleSince /
    isIdleSince / Close is one of the six delegating methods and has the
    RLock; defer RUnlock; load; usedAt.Store; delegate shape *)
+Definition method_skeleton (m : string) : option (list (string * string)) :=
+  option_map snd (find (fun x => String.eqb (fst x) m) ev_methods).
+
+(* BinaryReader methods that return zero-copy strings (Gen: yolo_methods) and
+   whose LazyBinaryReader wrapper does not copy them under the lock *)
+Definition unsafe_methods : list string :=
+  filter (fun m => match method_skeleton m with
+                   | Some sk => negb (evs_eqb sk exp_method_clone)
+                   | None => false
+                   end) yolo_methods.
+
+Definition bp_src : bool := match unsafe_methods with [] => false | _ => true end.
+
 Definition facts_ok : bool :=
   evs_eqb ev_load exp_load
   && evs_eqb ev_unloadIfIdleSince exp_unload
   && evs_eqb ev_isIdleSince exp_isidle
   && evs_eqb ev_Close exp_close
   && list_eqb String.eqb (map fst ev_methods) exp_method_names
-  && forallb (fun m => evs_eqb (snd m) exp_method) ev_methods
+  && forallb (fun m => evs_eqb (snd m) exp_method || evs_eqb (snd m) exp_method_clone) ev_methods
+  && forallb (fun m => is_some (method_skeleton m)) yolo_methods
   && evs_eqb ev_pool_closeIdleReaders exp_pool_close_idle
   && evs_eqb ev_pool_getIdleReadersSince exp_pool_get_idle.
 
 (* ---------- correspondence cases ---------- *)
 (* classes of observed results *)
-Inductive rclass := KOk | KDiff | KLoadErr | KUnloaded | KNil | KNotIdle | KTrue | KFalse | KPanic | KOther.
+Inductive rclass := KOk | KDiff | KLoadErr | KUnloaded | KNil | KNotIdle | KTrue | KFalse | KPanic | KOther | KCloseErr.
 
 Definition rclass_eqb (a b : rclass) : bool :=
   match a, b with
   | KOk, KOk | KDiff, KDiff | KLoadErr, KLoadErr | KUnloaded, KUnloaded | KNil, KNil
-  | KNotIdle, KNotIdle | KTrue, KTrue | KFalse, KFalse | KPanic, KPanic | KOther, KOther => true
+  | KNotIdle, KNotIdle | KTrue, KTrue | KFalse, KFalse | KPanic, KPanic | KOther, KOther
+  | KCloseErr, KCloseErr => true
   | _, _ => false
   end.
 
 Definition class_of (x : res) : rclass :=
   match x with
-  | ROk _ => KOk
+  | ROk _ _ => KOk
   | RErr ELoad => KLoadErr
   | RErr EUnloaded => KUnloaded
   | RErr ENotIdle => KNotIdle
-  | RErr EClose => KOther
+  | RErr EClose => KCloseErr
   | RNil => KNil
   | RBool true => KTrue
   | RBool false => KFalse
@@ -332,13 +391,13 @@ Definition obs_of (s : shared) (x : res) : obs :=
 Definition op_ok (load_ok : bool) (o : op) : bool := match o with OLookup => load_ok | _ => true end.
 
 (* the model's own observations for a sequence of operations *)
-Fixpoint seq_model (load_ok : bool) (s : shared) (ops : list (op * Z)) : option (list (op * Z * obs)) :=
+Fixpoint seq_model (bp : bool) (load_ok : bool) (s : shared) (ops : list (op * Z)) : option (list (op * Z * obs)) :=
   match ops with
   | [] => Some []
   | (o, now) :: rest =>
-      match run_op o (op_ok load_ok o) now s with
+      match run_op bp o (op_ok load_ok o) now s with
       | Some (s', x) =>
-          match seq_model load_ok s' rest with
+          match seq_model bp load_ok s' rest with
           | Some l => Some ((o, now, obs_of s' x) :: l)
           | None => None
           end
@@ -346,19 +405,19 @@ Fixpoint seq_model (load_ok : bool) (s : shared) (ops : list (op * Z)) : option 
       end
   end.
 
-Fixpoint seq_ok (load_ok : bool) (s : shared) (ops : list (op * Z * obs)) : bool :=
+Fixpoint seq_ok (bp : bool) (load_ok : bool) (s : shared) (ops : list (op * Z * obs)) : bool :=
   match ops with
   | [] => true
   | (o, now, ob) :: rest =>
-      match run_op o (op_ok load_ok o) now s with
-      | Some (s', x) => obs_matches s' x ob && seq_ok load_ok s' rest
+      match run_op bp o (op_ok load_ok o) now s with
+      | Some (s', x) => obs_matches s' x ob && seq_ok bp load_ok s' rest
       | None => false
       end
   end.
 
 Definition corr_ok (c : case) : bool :=
   match c with
-  | CSeq u0 load_ok ops => seq_ok load_ok (init_shared u0) ops
+  | CSeq u0 load_ok ops => seq_ok bp_src load_ok (init_shared u0) ops
   | CConc lookups n_ok n_diff n_le n_un n_pa n_ot u_nil u_ni u_ot lo lf un uf loaded =>
       (* the counter invariant of every quiescent reachable state
          (Proofs: inv_counts): successful loads = successful unloads + [loaded] *)
@@ -372,7 +431,8 @@ Definition lookup_class_ok (k : rclass) : bool :=
 Definition op_class_ok (o : op) (k : rclass) : bool :=
   match o with
   | OLookup => lookup_class_ok k
-  | OUnload _ | OSweep _ => match k with KNil | KNotIdle | KFalse => true | _ => false end
+  | OUnload _ => match k with KNil | KNotIdle | KCloseErr => true | _ => false end
+  | OSweep _ => match k with KNil | KNotIdle | KCloseErr | KFalse => true | _ => false end
   | OIsIdle _ => match k with KTrue | KFalse => true | _ => false end
   end.
 
